@@ -54,6 +54,31 @@ def check_run(r, cfg):
             raise V_(R + "._handle_orders", "C11 buyer and seller of each fill are each notified exactly once", (exe_cb[id(l)], l.buy_agent_id, l.sell_agent_id))
     if set(exe_cb) - {id(l) for l in fills}:
         raise V_(R + "._handle_orders", "C11 no notification without a fill")
+    # holdings as seen inside executed_order: a maximal run of consecutive fill notifications is one matching round; at every notification of the
+    # round the notified agent's holdings already include every fill of that round (and nothing else has changed them since the endowment)
+    cash_now = {a.agent_id: 1000.0 for a in s.agents}; sh_now = {(a.agent_id, m): 10 for a in s.agents for m in a.asset_volumes}
+    i = 0
+    while i < len(EV):
+        if EV[i][0] != "cb_exe":
+            i += 1; continue
+        j = i
+        while j < len(EV) and EV[j][0] in ("cb_exe", "h_ae"):      # after-execution hooks run between the notifications of one round
+            j += 1
+        round_logs = []
+        for e in EV[i:j]:
+            if e[0] == "cb_exe" and not any(e[2] is l for l in round_logs):
+                round_logs.append(e[2])
+        for l in round_logs:
+            cash_now[l.buy_agent_id] -= l.price * l.volume; cash_now[l.sell_agent_id] += l.price * l.volume
+            sh_now[(l.buy_agent_id, l.market_id)] += l.volume; sh_now[(l.sell_agent_id, l.market_id)] -= l.volume
+        for e in EV[i:j]:
+            if e[0] != "cb_exe":
+                continue
+            aid = e[1]
+            if abs(e[3] - cash_now[aid]) > 1e-6 or any(v != sh_now[(aid, m)] for m, v in e[4].items()):
+                raise V_(R + "._handle_orders", "C11 / C05 a party is notified of a fill after holdings have been updated for the whole matching round",
+                         dict(agent=aid, cash_seen=e[3], cash_expected=cash_now[aid], shares_seen=e[4], shares_expected={m: sh_now[(aid, m)] for m in e[4]}))
+        i = j
     # ---- C13 probe hooks (registered for all times)
     if "Probe" in [x for ses in cfg["simulation"]["sessions"] for x in ses.get("events", [])]:
         if collections.Counter(id(e[1]) for e in EV if e[0] == "h_ao") != collections.Counter(id(l) for l in ords):
